@@ -61,6 +61,14 @@ ResolveSameValues ==
         /\ status = first.status /\ vals = first.vals /\ F = first.F
         /\ status = "Optimal" => Valid(inst, result, opts.pc) /\ (opts.stab => Stable(inst, result))
 
+(* What a getter returns is a function of the solver state and of the       *)
+(* getter ALONE (GettersReadOnly: no getter changes svars, and Get(kind)     *)
+(* reads nothing else) - in particular not of which other getters were       *)
+(* called before it.  The replay binds this with a reference run: a second   *)
+(* Solver taken through the same solves without any getter call, on which    *)
+(* the getter is the first call, must return the same text                   *)
+(* (clause getter_text_independent_of_other_getters).                        *)
+GetterContent(kind) == [kind |-> kind, content |-> IF opts.bf THEN <<"bf", bf>> ELSE <<"lp", status, vals, result>>]
 (* abstract content of what a getter returns in the current state *)
 HistCalls ==
     [ kind |-> "hist", o |-> Common, inst |-> inst, crits |-> crits, calls |-> calls,
